@@ -175,6 +175,9 @@ KNOWN_SCENARIOS = [
      ["in", "out", "r", "ok later"], "ok"),
     ("F25-throw-in-finally-after-return", 'fn f() { try { return 5; } finally { throw "x"; } }\ntry { f(); } catch e { print(e); }\nfn g() { try { print("g"); } finally { print("gf"); } return 1; }\nprint(g());',
      ["x", "g", "gf", "1"], "ok"),
+    ("F35-handled-exception-inside-finally-cancels-the-one-in-flight",
+     'fn cleanup() { try { nil + 1; } catch e { return "cleaned"; } }\nfn risky() { try { throw "boom"; } finally { print(cleanup()); } return "returned normally"; }\ntry { print(risky()); } catch e { print("caught " + e); }',
+     ["cleaned", "caught boom"], "ok"),
     ("F26-return-in-finally-after-throw", 'fn g() { try { throw 1; } finally { return 2; } }\nprint(g());\nfn h() { try { print("h"); } finally { print("hf"); } return 3; }\nprint(h());',
      ["2", "h", "hf", "3"], "ok"),
 ]
